@@ -171,6 +171,35 @@ def F13():
     return a == 1, "month=%r" % (a,)
 
 
+def F14():
+    """C08: a raising replace changes the order of Library.strings"""
+    from bibtexparser.model import String
+    from bibtexparser.library import Library
+    s1, s2, s3 = String("a", "1"), String("b", "2"), String("b", "3")
+    lib = Library([s1, s2])
+    before = [s.key for s in lib.strings]
+    try:
+        lib.replace(s1, s3)
+        return False, "no exception"
+    except ValueError:
+        pass
+    after = [s.key for s in lib.strings]
+    return before == after, "%r -> %r" % (before, after)
+
+
+def F15():
+    """C07: a library with a name-error block cannot be written / copied"""
+    bp = _bp()
+    from bibtexparser.middlewares import SeparateCoAuthors, SplitNameParts, MonthIntMiddleware
+    lib = bp.parse_string("@article{k, author = {A,, B,, C,, D}}", append_middleware=[SeparateCoAuthors(), SplitNameParts()])
+    try:
+        out = bp.write_string(lib)
+        MonthIntMiddleware(allow_inplace_modification=False).transform(lib)
+    except TypeError as e:
+        return False, "TypeError: %s" % e
+    return isinstance(out, str), repr(out)[:60]
+
+
 def K1():
     """C08: add(dup, fail_on_duplicate_key=True) raises ValueError after adding the wrapper"""
     from bibtexparser.model import Entry
@@ -218,7 +247,7 @@ def K3():
     return ps == ps2, "%r -> %r -> %d persons" % (v, merged, len(ps2))
 
 
-ALL = [F1, F2, F3, F4, F5, F6, F7, F8, F9, F10, F11, F12, F13, K1, K2, K3, K4]
+ALL = [F1, F2, F3, F4, F5, F6, F7, F8, F9, F10, F11, F12, F13, F14, F15, K1, K2, K3, K4]
 
 if __name__ == "__main__":
     import bibtexparser
